@@ -1,11 +1,19 @@
 import TwistedModel.Irc.Split
+import TwistedModel.Irc.Ctcp
 import TwistedProps.C43.Utf8
 /-!
 C43 — IRC messages are split within the length limit without losing content; CTCP and
 low-level quoting round-trip any text.
+
+"Round-trip" is proved at three levels: the quoting functions (`low_roundtrip`, `ctcp_roundtrip`),
+the CTCP framing `ctcpStringify` → `ctcpExtract` for arbitrary data texts — leading, trailing,
+only whitespace included — alone or interleaved with normal text (`ctcp_stringify_roundtrip`,
+`ctcp_extract_interleaved`), and client → client (`ctcp_query_client_to_client`,
+`ctcp_reply_client_to_client`: `ctcpMakeQuery`/`ctcpMakeReply` → wire → the peer's
+`ctcpQuery`/`ctcpReply`, for CTCP texts `msg()` sends whole).
 -/
 namespace TwistedProps.C43
-open Twisted.Irc.Split
+open Twisted.Irc.Split Twisted.Irc.Ctcp
 
 /-! ### The sequential `str.replace` calls are one per-character substitution -/
 
@@ -590,5 +598,495 @@ example : limitOf 9 "PRIVMSG".toList "foo".toList none = 403 := by decide
     width 1, one character, 4 octets; the line was 19 octets). -/
 theorem chars_are_not_octets : ∃ chunk : Text, chunk.length ≤ 1 ∧ 1 < wireLen chunk ∧
     (wire ("PRIVMSG foo :".toList ++ chunk)).length = 19 := ⟨['😀'], by decide⟩
+
+/-! ### CTCP framing: `ctcpStringify` → `ctcpExtract` -/
+
+theorem xq1_clean (c x : Char) (h : x ∈ xq1 c) : x ≠ X_DELIM := by
+  by_cases h1 : c = X_QUOTE
+  · subst h1
+    have e : xq1 X_QUOTE = [X_QUOTE, X_QUOTE] := by decide
+    rw [e] at h; simp only [List.mem_cons, List.not_mem_nil, or_false] at h
+    rcases h with h | h <;> subst h <;> decide
+  · by_cases h2 : c = X_DELIM
+    · subst h2
+      have e : xq1 X_DELIM = [X_QUOTE, 'a'] := by decide
+      rw [e] at h; simp only [List.mem_cons, List.not_mem_nil, or_false] at h
+      rcases h with h | h <;> subst h <;> decide
+    · have e : xq1 c = [c] := by simp [xq1, h1, h2]
+      rw [e] at h; simp only [List.mem_cons, List.not_mem_nil, or_false] at h
+      subst h; exact h2
+
+/-- the output of `ctcpQuote` never contains X-DELIM -/
+theorem ctcpQuote_clean (s : Text) : ∀ x ∈ ctcpQuote s, x ≠ X_DELIM := by
+  intro x hx
+  rw [ctcpQuote_eq_flatMap, List.mem_flatMap] at hx
+  obtain ⟨c, _, hxc⟩ := hx
+  exact xq1_clean c x hxc
+
+theorem xq1_ne_nil (c : Char) : xq1 c ≠ [] := by
+  unfold xq1; split
+  · simp
+  · split <;> simp
+
+theorem ctcpQuote_ne_nil (s : Text) (h : s ≠ []) : ctcpQuote s ≠ [] := by
+  cases s with
+  | nil => exact absurd rfl h
+  | cons c s =>
+    rw [ctcpQuote_cons]
+    intro hn
+    exact xq1_ne_nil c (List.append_eq_nil_iff.mp hn).1
+
+/-- `str.split(sep)`: a piece free of `sep`, followed by `sep`, is cut off whole -/
+theorem splitAux_piece (sep : Char) (rest : Text) : ∀ (a cur : Text), (∀ x ∈ a, x ≠ sep) →
+    splitAux sep (a ++ sep :: rest) cur = (cur ++ a) :: splitAux sep rest [] := by
+  intro a
+  induction a with
+  | nil => intro cur _; simp [splitAux]
+  | cons c a ih =>
+    intro cur h
+    have hc : c ≠ sep := h c (by simp)
+    simp only [List.cons_append, splitAux, hc, if_false]
+    rw [ih (cur ++ [c]) (fun x hx => h x (by simp [hx]))]
+    simp
+
+theorem splitAux_last (sep : Char) : ∀ (a cur : Text), (∀ x ∈ a, x ≠ sep) →
+    splitAux sep a cur = [cur ++ a] := by
+  intro a
+  induction a with
+  | nil => intro cur _; simp [splitAux]
+  | cons c a ih =>
+    intro cur h
+    have hc : c ≠ sep := h c (by simp)
+    simp only [splitAux, hc, if_false]
+    rw [ih (cur ++ [c]) (fun x hx => h x (by simp [hx]))]
+    simp
+
+theorem splitOn_piece (sep : Char) (a rest : Text) (h : ∀ x ∈ a, x ≠ sep) :
+    splitOn sep (a ++ sep :: rest) = a :: splitOn sep rest := by
+  simpa [splitOn] using splitAux_piece sep rest a [] h
+
+theorem splitOn_last (sep : Char) (a : Text) (h : ∀ x ∈ a, x ≠ sep) : splitOn sep a = [a] := by
+  simpa [splitOn] using splitAux_last sep a [] h
+
+/-- the quoted body of one extended message, as it stands between its two X-DELIMs -/
+def quoted (m : Text × Data) : Text := ctcpQuote (body m.1 m.2)
+
+/-- normal text `n0`, then extended messages each followed by normal text:
+    `n0 + ctcpStringify([m1]) + n1 + … + ctcpStringify([mk]) + nk` -/
+def interleave (n0 : Text) (pairs : List ((Text × Data) × Text)) : Text :=
+  n0 ++ pairs.flatMap fun p => stringify1 p.1 ++ p.2
+
+theorem interleave_cons (n0 : Text) (p : (Text × Data) × Text) (ps : List ((Text × Data) × Text)) :
+    interleave n0 (p :: ps) = n0 ++ X_DELIM :: (quoted p.1 ++ X_DELIM :: interleave p.2 ps) := by
+  simp [interleave, stringify1, quoted]
+
+theorem splitOn_interleave : ∀ (pairs : List ((Text × Data) × Text)) (n0 : Text),
+    (∀ x ∈ n0, x ≠ X_DELIM) → (∀ p ∈ pairs, ∀ x ∈ p.2, x ≠ X_DELIM) →
+    splitOn X_DELIM (interleave n0 pairs) = n0 :: pairs.flatMap fun p => [quoted p.1, p.2] := by
+  intro pairs
+  induction pairs with
+  | nil => intro n0 h0 _; simpa [interleave] using splitOn_last X_DELIM n0 h0
+  | cons p ps ih =>
+    intro n0 h0 hp
+    rw [interleave_cons, splitOn_piece X_DELIM n0 _ h0,
+      splitOn_piece X_DELIM (quoted p.1) _ (ctcpQuote_clean _),
+      ih p.2 (hp p (by simp)) (fun q hq => hp q (by simp [hq]))]
+    simp
+
+theorem alternate_two (a b : Text) (rest : List Text) :
+    alternate (a :: b :: rest) false = (b :: (alternate rest false).1, a :: (alternate rest false).2) := by
+  simp [alternate]
+
+theorem alternate_pieces : ∀ (pairs : List ((Text × Data) × Text)) (n0 : Text),
+    alternate (n0 :: pairs.flatMap fun p => [quoted p.1, p.2]) false =
+      (pairs.map fun p => quoted p.1, n0 :: pairs.map fun p => p.2) := by
+  intro pairs
+  induction pairs with
+  | nil => intro n0; simp [alternate]
+  | cons p ps ih =>
+    intro n0
+    simp only [List.flatMap_cons, List.cons_append, List.nil_append, List.map_cons]
+    rw [alternate_two, ih p.2]
+
+theorem splitFirst_tag (sep : Char) : ∀ (tag : Text), (∀ x ∈ tag, x ≠ sep) →
+    splitFirst sep tag = (tag, none) := by
+  intro tag
+  induction tag with
+  | nil => intro _; simp [splitFirst]
+  | cons c t ih =>
+    intro h
+    have hc : c ≠ sep := h c (by simp)
+    simp [splitFirst, hc, ih (fun x hx => h x (by simp [hx]))]
+
+theorem splitFirst_tag_data (sep : Char) (d : Text) : ∀ (tag : Text), (∀ x ∈ tag, x ≠ sep) →
+    splitFirst sep (tag ++ sep :: d) = (tag, some d) := by
+  intro tag
+  induction tag with
+  | nil => intro _; simp [splitFirst]
+  | cons c t ih =>
+    intro h
+    have hc : c ≠ sep := h c (by simp)
+    simp [splitFirst, hc, ih (fun x hx => h x (by simp [hx]))]
+
+/-- the cut at the first single space recovers the tag and the data text, whatever the data
+    text is (leading, trailing, only whitespace; any number of further spaces) -/
+theorem splitFirst_body (tag : Text) (d : Data) (h : ∀ x ∈ tag, x ≠ SPC) :
+    splitFirst SPC (body tag d) = (tag, d.back) := by
+  unfold body Data.back
+  by_cases ht : d.truthy = true
+  · simp only [ht, if_true]; exact splitFirst_tag_data SPC _ tag h
+  · simp only [ht]; exact splitFirst_tag SPC tag h
+
+/-- a tag is a non-empty word that does not contain the separating space -/
+def ValidTag (tag : Text) : Prop := tag ≠ [] ∧ ∀ x ∈ tag, x ≠ SPC
+
+theorem body_ne_nil (tag : Text) (d : Data) (h : tag ≠ []) : body tag d ≠ [] := by
+  unfold body; split
+  · cases tag with
+    | nil => exact absurd rfl h
+    | cons c t => simp
+  · exact h
+
+theorem nonEmpty_quoted (m : Text × Data) (h : ValidTag m.1) : nonEmpty (quoted m) = true := by
+  have := ctcpQuote_ne_nil _ (body_ne_nil m.1 m.2 h.1)
+  unfold nonEmpty quoted
+  cases hq : ctcpQuote (body m.1 m.2) with
+  | nil => exact absurd hq this
+  | cons _ _ => rfl
+
+/-- **CTCP framing round-trips, in any surrounding text**: normal text (free of X-DELIM)
+    interleaved with extended messages `(tag, data)` — every tag a non-empty word without a
+    space, every data `None`, a text or a list of texts, the texts *arbitrary* — is taken apart
+    by `ctcpExtract` into exactly those tags with exactly those data texts (absent/empty data
+    comes back as `None`) and the non-empty normal texts, in order. -/
+theorem ctcp_extract_interleaved (n0 : Text) (pairs : List ((Text × Data) × Text))
+    (htag : ∀ p ∈ pairs, ValidTag p.1.1)
+    (h0 : ∀ x ∈ n0, x ≠ X_DELIM) (hn : ∀ p ∈ pairs, ∀ x ∈ p.2, x ≠ X_DELIM) :
+    ctcpExtract (interleave n0 pairs) =
+      (pairs.map fun p => (p.1.1, p.1.2.back), (n0 :: pairs.map fun p => p.2).filter nonEmpty) := by
+  unfold ctcpExtract
+  simp only [splitOn_interleave pairs n0 h0 hn, alternate_pieces]
+  congr 1
+  have hf : (pairs.map fun p => quoted p.1).filter nonEmpty = pairs.map fun p => quoted p.1 := by
+    rw [List.filter_eq_self]
+    intro q hq
+    rw [List.mem_map] at hq
+    obtain ⟨p, hp, rfl⟩ := hq
+    exact nonEmpty_quoted p.1 (htag p hp)
+  rw [hf, List.map_map, List.map_map]
+  apply List.map_congr_left
+  intro p hp
+  simp only [Function.comp, quoted, ctcp_roundtrip]
+  exact splitFirst_body _ _ (htag p hp).2
+
+theorem ctcpStringify_eq_interleave (msgs : List (Text × Data)) :
+    ctcpStringify msgs = interleave [] (msgs.map fun m => (m, [])) := by
+  simp [ctcpStringify, interleave, List.flatMap_map]
+
+/-- **`ctcpExtract(ctcpStringify(messages))` gives the messages back**: same tags, same data
+    texts character for character, nothing left over as normal text. -/
+theorem ctcp_stringify_roundtrip (msgs : List (Text × Data)) (htag : ∀ m ∈ msgs, ValidTag m.1) :
+    ctcpExtract (ctcpStringify msgs) = (msgs.map fun m => (m.1, m.2.back), []) := by
+  rw [ctcpStringify_eq_interleave, ctcp_extract_interleaved]
+  · simp [List.map_map, Function.comp, nonEmpty]
+  · intro p hp; rw [List.mem_map] at hp; obtain ⟨m, hm, rfl⟩ := hp; exact htag m hm
+  · simp
+  · intro p hp; rw [List.mem_map] at hp; obtain ⟨m, hm, rfl⟩ := hp; simp
+
+/-! ### The receiving client, and client → client -/
+
+theorem ctcpStringify_cons (m : Text × Data) (ms : List (Text × Data)) :
+    ctcpStringify (m :: ms) = X_DELIM :: (quoted m ++ X_DELIM :: ctcpStringify ms) := by
+  simp [ctcpStringify, stringify1, quoted]
+
+/-- what `irc_PRIVMSG` / `irc_NOTICE` do with the text of `ctcpStringify(messages)`: one call
+    (`ctcpQuery` resp. `ctcpReply`) carrying exactly the messages; nothing is delivered as a
+    normal message. -/
+theorem recvCommon_stringify (ext : List (Text × Option Text) → Event) (plain : Text → Event)
+    (msgs : List (Text × Data)) (hne : msgs ≠ []) (htag : ∀ m ∈ msgs, ValidTag m.1) :
+    recvCommon ext plain (ctcpStringify msgs) = [ext (msgs.map fun m => (m.1, m.2.back))] := by
+  cases msgs with
+  | nil => exact absurd rfl hne
+  | cons m ms =>
+    have hx := ctcp_stringify_roundtrip (m :: ms) htag
+    rw [ctcpStringify_cons] at hx ⊢
+    simp only [recvCommon, if_true, hx]
+    simp
+
+theorem ctcpStringify_ne_nil (msgs : List (Text × Data)) (hne : msgs ≠ []) : ctcpStringify msgs ≠ [] := by
+  cases msgs with
+  | nil => exact absurd rfl hne
+  | cons m ms => rw [ctcpStringify_cons]; simp
+
+/-- **A client receiving a PRIVMSG whose text is `ctcpStringify(messages)`** calls
+    `ctcpQuery(user, channel, messages)` with the same tags and the same data texts. -/
+theorem recvPrivmsg_stringify (msgs : List (Text × Data)) (hne : msgs ≠ []) (htag : ∀ m ∈ msgs, ValidTag m.1) :
+    recvPrivmsg (ctcpStringify msgs) = .ok [.query (msgs.map fun m => (m.1, m.2.back))] := by
+  have h := ctcpStringify_ne_nil msgs hne
+  unfold recvPrivmsg
+  rw [recvCommon_stringify _ _ msgs hne htag]
+  cases hs : ctcpStringify msgs with
+  | nil => exact absurd hs h
+  | cons _ _ => rfl
+
+/-- … and for a NOTICE, `ctcpReply(user, channel, messages)`. -/
+theorem recvNotice_stringify (msgs : List (Text × Data)) (hne : msgs ≠ []) (htag : ∀ m ∈ msgs, ValidTag m.1) :
+    recvNotice (ctcpStringify msgs) = .ok [.reply (msgs.map fun m => (m.1, m.2.back))] := by
+  have h := ctcpStringify_ne_nil msgs hne
+  unfold recvNotice
+  rw [recvCommon_stringify _ _ msgs hne htag]
+  cases hs : ctcpStringify msgs with
+  | nil => exact absurd hs h
+  | cons _ _ => rfl
+
+/-- `_sendMessage` writes `wire (fmt ++ part)` for each part of `sendParts` -/
+theorem sendMessage_eq_sendParts (wrap : Wrap) (nicklen : Nat) (msgType user message : Text) (length : Option Int) :
+    sendMessage wrap nicklen msgType user message length =
+      (sendParts wrap nicklen msgType user message length).map
+        (fun ps => ps.map fun p => wire (fmtOf msgType user ++ p)) := by
+  unfold sendMessage sendParts
+  simp only
+  split
+  · rfl
+  · cases split wrap message
+        (effLength nicklen (fmtOf msgType user) length - minimumLength (fmtOf msgType user)) with
+    | error e => rfl
+    | ok chunks =>
+      simp only
+      cases splitAllOctets
+          (effLength nicklen (fmtOf msgType user) length - minimumLength (fmtOf msgType user)).toNat chunks with
+      | error e => rfl
+      | ok ps => rfl
+
+theorem wireLen_cons (c : Char) (s : Text) : wireLen (c :: s) = wireLen1 c + wireLen s := by
+  have := wireLen_append [c] s
+  simpa [wireLen_singleton] using this
+
+theorem splitOctetsAux_whole (m : Nat) : ∀ (text cur : Text) (size : Nat),
+    size = wireLen cur → wireLen cur + wireLen text ≤ m →
+    splitOctetsAux m text cur size = .ok (if (cur ++ text).isEmpty then [] else [cur ++ text]) := by
+  intro text
+  induction text with
+  | nil => intro cur size _ _; simp [splitOctetsAux]
+  | cons c rest ih =>
+    intro cur size hs hle
+    rw [wireLen_cons] at hle
+    have h1 : ¬ wireLen1 c > m := by omega
+    have h2 : ¬ size + wireLen1 c > m := by omega
+    simp only [splitOctetsAux, h1, h2, if_false]
+    rw [ih (cur ++ [c]) (size + wireLen1 c) (by rw [wireLen_append, wireLen_singleton, hs])
+      (by rw [wireLen_append, wireLen_singleton]; omega)]
+    simp
+
+/-- a non-empty text that fits the octet budget is one piece -/
+theorem splitOctets_whole (text : Text) (m : Nat) (hne : text ≠ []) (h : wireLen text ≤ m) :
+    splitOctets text m = .ok [text] := by
+  have := splitOctetsAux_whole m text [] 0 (by simp [wireLen_nil]) (by simp [wireLen_nil]; exact h)
+  unfold splitOctets
+  rw [this]
+  cases text with
+  | nil => exact absurd rfl hne
+  | cons _ _ => simp
+
+/-- **When `msg()`/`notice()` leave a text whole**: no newline in it, `textwrap.wrap` returns it
+    as its single line, and it fits the octet budget — then it is sent as one part, unchanged. -/
+theorem sendParts_whole (wrap : Wrap) (nicklen : Nat) (msgType user text : Text) (length : Option Int)
+    (hne : text ≠ []) (hnl : ∀ x ∈ text, x ≠ NL)
+    (hfit : (wireLen text : Int) ≤ wrapWidth nicklen msgType user length)
+    (hwrap : wrap text (wrapWidth nicklen msgType user length).toNat = [text]) :
+    sendParts wrap nicklen msgType user text length = .ok [text] := by
+  have hpos : 1 ≤ wireLen text := by
+    cases text with
+    | nil => exact absurd rfl hne
+    | cons c s => rw [wireLen_cons]; have := wireLen1_pos c; omega
+  unfold wrapWidth at hfit hwrap
+  unfold sendParts
+  simp only
+  have h1 : ¬ effLength nicklen (fmtOf msgType user) length ≤ minimumLength (fmtOf msgType user) := by omega
+  have h2 : ¬ effLength nicklen (fmtOf msgType user) length - minimumLength (fmtOf msgType user) ≤ 0 := by omega
+  simp only [h1, if_false, split, h2, splitOn_last NL text hnl, List.flatMap_cons, List.flatMap_nil,
+    List.append_nil, hwrap, splitAllOctets]
+  rw [splitOctets_whole text _ hne (by omega)]
+
+/-- **Client → client**: `ctcpMakeQuery(user, messages)` whose text `msg()` leaves whole (see
+    `sendParts_whole`) writes one line; the peer's UTF-8 decoding and low-level dequoting of that
+    line give back `PRIVMSG user :` + the text, and its `irc_PRIVMSG` calls
+    `ctcpQuery(…, messages)` with the same tags and the same data texts. -/
+theorem ctcp_query_end_to_end (wrap : Wrap) (nicklen : Nat) (user : Text) (msgs : List (Text × Data))
+    (hne : msgs ≠ []) (htag : ∀ m ∈ msgs, ValidTag m.1)
+    (hnl : ∀ x ∈ ctcpStringify msgs, x ≠ NL)
+    (hfit : (wireLen (ctcpStringify msgs) : Int) ≤ wrapWidth nicklen PRIVMSG user none)
+    (hwrap : wrap (ctcpStringify msgs) (wrapWidth nicklen PRIVMSG user none).toNat = [ctcpStringify msgs]) :
+    ctcpMakeQuery wrap nicklen user msgs = .ok [wire (fmtOf PRIVMSG user ++ ctcpStringify msgs)] ∧
+    (∃ (body : List UInt8) (quotedLine : Text),
+      wire (fmtOf PRIVMSG user ++ ctcpStringify msgs) = body ++ [13, 10] ∧
+      decodeNat body = some (quotedLine.map Char.toNat) ∧
+      lowDequote quotedLine = fmtOf PRIVMSG user ++ ctcpStringify msgs) ∧
+    recvAll recvPrivmsg [ctcpStringify msgs] = .ok [.query (msgs.map fun m => (m.1, m.2.back))] := by
+  refine ⟨?_, receiver_recovers _ _, ?_⟩
+  · unfold ctcpMakeQuery
+    rw [sendMessage_eq_sendParts, sendParts_whole wrap nicklen PRIVMSG user _ none
+      (ctcpStringify_ne_nil msgs hne) hnl hfit hwrap]
+    rfl
+  · simp [recvAll, recvPrivmsg_stringify msgs hne htag]
+
+/-- the same for `ctcpMakeReply` → `irc_NOTICE` → `ctcpReply` -/
+theorem ctcp_reply_end_to_end (wrap : Wrap) (nicklen : Nat) (user : Text) (msgs : List (Text × Data))
+    (hne : msgs ≠ []) (htag : ∀ m ∈ msgs, ValidTag m.1)
+    (hnl : ∀ x ∈ ctcpStringify msgs, x ≠ NL)
+    (hfit : (wireLen (ctcpStringify msgs) : Int) ≤ wrapWidth nicklen NOTICE user none)
+    (hwrap : wrap (ctcpStringify msgs) (wrapWidth nicklen NOTICE user none).toNat = [ctcpStringify msgs]) :
+    ctcpMakeReply wrap nicklen user msgs = .ok [wire (fmtOf NOTICE user ++ ctcpStringify msgs)] ∧
+    (∃ (body : List UInt8) (quotedLine : Text),
+      wire (fmtOf NOTICE user ++ ctcpStringify msgs) = body ++ [13, 10] ∧
+      decodeNat body = some (quotedLine.map Char.toNat) ∧
+      lowDequote quotedLine = fmtOf NOTICE user ++ ctcpStringify msgs) ∧
+    recvAll recvNotice [ctcpStringify msgs] = .ok [.reply (msgs.map fun m => (m.1, m.2.back))] := by
+  refine ⟨?_, receiver_recovers _ _, ?_⟩
+  · unfold ctcpMakeReply
+    rw [sendMessage_eq_sendParts, sendParts_whole wrap nicklen NOTICE user _ none
+      (ctcpStringify_ne_nil msgs hne) hnl hfit hwrap]
+    rfl
+  · simp [recvAll, recvNotice_stringify msgs hne htag]
+
+/-! ### Non-vacuity of the CTCP framing theorems -/
+
+/-- data beginning with two spaces, no data, data made of X-DELIM / X-QUOTE / `a`, a list -/
+example : ctcpExtract (ctcpStringify [("ACTION".toList, .text "  two leading".toList), ("PING".toList, .none),
+      ("X".toList, .text [X_DELIM, '\\', 'a', ' ']), ("L".toList, .list [" a".toList, [], "b ".toList])]) =
+    ([("ACTION".toList, some "  two leading".toList), ("PING".toList, none),
+      ("X".toList, some [X_DELIM, '\\', 'a', ' ']), ("L".toList, some " a  b ".toList)], []) := by decide
+
+/-- data that is a single space comes back as that space (not as `None`), a tab as a tab -/
+example : ctcpExtract (ctcpStringify [("ACTION".toList, .text [' ']), ("ACTION".toList, .text ['\t', 'x'])]) =
+    ([("ACTION".toList, some [' ']), ("ACTION".toList, some ['\t', 'x'])], []) := by decide
+
+/-- the text on the wire: `\x01ACTION  x\x01` (two spaces: the separator and the data's own) -/
+example : ctcpStringify [("ACTION".toList, .text " x".toList)] = X_DELIM :: "ACTION  x".toList ++ [X_DELIM] := by decide
+
+/-- normal text around and between extended messages -/
+example : ctcpExtract (interleave "hi ".toList [(("ACTION".toList, .text " x".toList), []), (("PING".toList, .none), " bye".toList)]) =
+    ([("ACTION".toList, some " x".toList), ("PING".toList, none)], ["hi ".toList, " bye".toList]) := by decide
+
+/-- empty data and absent data are the same message: `""` comes back as `None` -/
+example : ctcpExtract (ctcpStringify [("V".toList, .text [])]) = ([("V".toList, none)], []) := by decide
+
+/-- Why the tag must not contain the separator: `("A B", "c")` comes back as `("A", "B c")`. -/
+theorem tag_with_space_counterexample :
+    ctcpExtract (ctcpStringify [("A B".toList, .text "c".toList)]) = ([("A".toList, some "B c".toList)], []) := by decide
+
+/-- a `wrap` meeting the contract that returns a fitting text whole (as `textwrap.wrap` does for a
+    line without tabs/newlines that does not begin or end in whitespace) -/
+def wholeWrap : Wrap := fun s w => if s.length ≤ w then [s] else hardWrap s w
+
+theorem wholeWrap_contract : WrapContract wholeWrap where
+  width := fun s w hw c hc => by
+    unfold wholeWrap at hc
+    split at hc
+    · simp at hc; subst hc; assumption
+    · exact hardWrap_contract.width s w hw c hc
+  content := fun s w hw => by
+    unfold wholeWrap
+    split
+    · simp
+    · exact hardWrap_contract.content s w hw
+
+/-- client → client with data that begins with a space: the hypotheses of
+    `ctcp_query_end_to_end` hold and the peer's `ctcpQuery` gets `" leading space"`. -/
+example : ctcpMakeQuery wholeWrap 9 "bob".toList [("ACTION".toList, .text " leading space".toList)] =
+      .ok [wire ("PRIVMSG bob :".toList ++ X_DELIM :: "ACTION  leading space".toList ++ [X_DELIM])] ∧
+    recvAll recvPrivmsg [ctcpStringify [("ACTION".toList, .text " leading space".toList)]] =
+      .ok [.query [("ACTION".toList, some " leading space".toList)]] := by
+  have h := ctcp_query_end_to_end wholeWrap 9 "bob".toList [("ACTION".toList, .text " leading space".toList)]
+    (by simp) (by intro m hm; simp at hm; subst hm; exact ⟨by decide, by decide⟩)
+    (by decide) (by decide) (by decide)
+  exact ⟨h.1, h.2.2⟩
+
+/-- a blank NOTICE makes `irc_NOTICE` raise `IndexError` (`message[0]`); a blank PRIVMSG is ignored -/
+example : recvNotice [] = .error .index ∧ recvPrivmsg [] = .ok [] := ⟨rfl, rfl⟩
+
+/-! ### Client → client under `textwrap.wrap`'s whole-line behaviour -/
+
+theorem length_le_wireLen (s : Text) : s.length ≤ wireLen s := by
+  induction s with
+  | nil => simp
+  | cons c s ih => rw [wireLen_cons]; have := wireLen1_pos c; simp; omega
+
+theorem ctcpStringify_ends (msgs : List (Text × Data)) (hne : msgs ≠ []) :
+    ∃ t, ctcpStringify msgs = t ++ [X_DELIM] := by
+  induction msgs with
+  | nil => exact absurd rfl hne
+  | cons m ms ih =>
+    by_cases h : ms = []
+    · subst h; exact ⟨X_DELIM :: quoted m, by simp [ctcpStringify, stringify1, quoted]⟩
+    · obtain ⟨t, ht⟩ := ih h
+      exact ⟨X_DELIM :: (quoted m ++ X_DELIM :: t), by rw [ctcpStringify_cons, ht]; simp⟩
+
+/-- the CTCP text is a line `textwrap.wrap` returns whole when it fits: it is not empty, ends in
+    X-DELIM (not whitespace), and has no tab / LF / VT / FF / CR if tags and data have none -/
+theorem ctcpStringify_wholeLine (msgs : List (Text × Data)) (hne : msgs ≠ [])
+    (hplain : ∀ x ∈ ctcpStringify msgs, isMunged x = false) : wholeLine (ctcpStringify msgs) = true := by
+  obtain ⟨t, ht⟩ := ctcpStringify_ends msgs hne
+  have h0 := ctcpStringify_ne_nil msgs hne
+  unfold wholeLine
+  simp only [Bool.and_eq_true, Bool.not_eq_true', List.all_eq_true]
+  refine ⟨⟨?_, ?_⟩, ?_⟩
+  · cases hs : ctcpStringify msgs with
+    | nil => exact absurd hs h0
+    | cons _ _ => rfl
+  · intro x hx; simp [hplain x hx]
+  · rw [ht]; simp; decide
+
+theorem not_munged_ne_NL (x : Char) (h : isMunged x = false) : x ≠ NL := by
+  intro e; subst e; revert h; decide
+
+/-- **Client → client, for `textwrap.wrap` as it behaves** (`WrapWhole`, checked on every observed
+    call): `ctcpMakeQuery(user, messages)` whose CTCP text has no tab / LF / VT / FF / CR and fits
+    the line (in octets, as sent) writes ONE line, from which the peer's UTF-8 decoding +
+    low-level dequoting recover `PRIVMSG user :` + the text, and the peer's `irc_PRIVMSG` calls
+    `ctcpQuery(…, messages)` with the same tags and the same data texts — whatever else the data
+    texts are (leading / trailing / only whitespace, X-DELIM, X-QUOTE, NUL, M-QUOTE, any code point). -/
+theorem ctcp_query_client_to_client (wrap : Wrap) (hw : WrapWhole wrap) (nicklen : Nat) (user : Text)
+    (msgs : List (Text × Data)) (hne : msgs ≠ []) (htag : ∀ m ∈ msgs, ValidTag m.1)
+    (hplain : ∀ x ∈ ctcpStringify msgs, isMunged x = false)
+    (hfit : (wireLen (ctcpStringify msgs) : Int) ≤ wrapWidth nicklen PRIVMSG user none) :
+    ctcpMakeQuery wrap nicklen user msgs = .ok [wire (fmtOf PRIVMSG user ++ ctcpStringify msgs)] ∧
+    (∃ (body : List UInt8) (quotedLine : Text),
+      wire (fmtOf PRIVMSG user ++ ctcpStringify msgs) = body ++ [13, 10] ∧
+      decodeNat body = some (quotedLine.map Char.toNat) ∧
+      lowDequote quotedLine = fmtOf PRIVMSG user ++ ctcpStringify msgs) ∧
+    recvAll recvPrivmsg [ctcpStringify msgs] = .ok [.query (msgs.map fun m => (m.1, m.2.back))] := by
+  apply ctcp_query_end_to_end wrap nicklen user msgs hne htag
+    (fun x hx => not_munged_ne_NL x (hplain x hx)) hfit
+  apply hw.whole _ _ (ctcpStringify_wholeLine msgs hne hplain)
+  have := length_le_wireLen (ctcpStringify msgs)
+  omega
+
+theorem ctcp_reply_client_to_client (wrap : Wrap) (hw : WrapWhole wrap) (nicklen : Nat) (user : Text)
+    (msgs : List (Text × Data)) (hne : msgs ≠ []) (htag : ∀ m ∈ msgs, ValidTag m.1)
+    (hplain : ∀ x ∈ ctcpStringify msgs, isMunged x = false)
+    (hfit : (wireLen (ctcpStringify msgs) : Int) ≤ wrapWidth nicklen NOTICE user none) :
+    ctcpMakeReply wrap nicklen user msgs = .ok [wire (fmtOf NOTICE user ++ ctcpStringify msgs)] ∧
+    (∃ (body : List UInt8) (quotedLine : Text),
+      wire (fmtOf NOTICE user ++ ctcpStringify msgs) = body ++ [13, 10] ∧
+      decodeNat body = some (quotedLine.map Char.toNat) ∧
+      lowDequote quotedLine = fmtOf NOTICE user ++ ctcpStringify msgs) ∧
+    recvAll recvNotice [ctcpStringify msgs] = .ok [.reply (msgs.map fun m => (m.1, m.2.back))] := by
+  apply ctcp_reply_end_to_end wrap nicklen user msgs hne htag
+    (fun x hx => not_munged_ne_NL x (hplain x hx)) hfit
+  apply hw.whole _ _ (ctcpStringify_wholeLine msgs hne hplain)
+  have := length_le_wireLen (ctcpStringify msgs)
+  omega
+
+/-- `wholeWrap` has the whole-line behaviour (so `WrapContract ∧ WrapWhole` is satisfiable) -/
+theorem wholeWrap_whole : WrapWhole wholeWrap where
+  whole := fun s w _ hl => by simp [wholeWrap, hl]
+
+/-- non-vacuity of `ctcp_query_client_to_client`: data beginning with a no-break space and containing NUL, through a
+    `wrap` that meets both parts of the contract -/
+example : recvAll recvPrivmsg [ctcpStringify [("ACTION".toList, .text [Char.ofNat 0xA0, 'x', NUL])]] =
+      .ok [.query [("ACTION".toList, some [Char.ofNat 0xA0, 'x', NUL])]] :=
+  (ctcp_query_client_to_client wholeWrap wholeWrap_whole 9 "#chan".toList [("ACTION".toList, .text [Char.ofNat 0xA0, 'x', NUL])]
+    (by simp) (by intro m hm; simp at hm; subst hm; exact ⟨by decide, by decide⟩) (by decide) (by decide)).2.2
 
 end TwistedProps.C43
